@@ -159,7 +159,12 @@ pub fn history(data: &[u8]) {
     if let Err(e) = finish(&dir, || props::history::run_history(&case, &dir, &p, &f)) {
         // attribute to the property whose clause failed
         let prop = if e.clause.starts_with("read/") || e.clause.starts_with("contains/") { "C01" } else if e.clause.contains("count") || e.clause.starts_with("blobs_count") || e.clause.starts_with("next_blob_id") { "C15" } else if e.clause.starts_with("read_all") || e.clause.starts_with("read_with") || e.clause.starts_with("delete/") { "C02" } else { "C04" };
-        report(prop, "history", &case, &e);
+        // a campaign run on behalf of one property (VERIF_FUZZ_PROP) reports only that property's clauses;
+        // the other properties' campaigns run the same target and report theirs
+        match std::env::var("VERIF_FUZZ_PROP") {
+            Ok(want) if want != prop && ["C01", "C02", "C04", "C15"].contains(&want.as_str()) => {}
+            _ => report(prop, "history", &case, &e),
+        }
     }
 }
 
